@@ -244,6 +244,9 @@ func encStep(line string) string {
 		case "validatorid":
 			b := idx.ValidatorID(n).Bytes()
 			return fmt.Sprintf("%s %d", HexOf(b), idx.BytesToValidatorID(b))
+		case "validator": // the validator INDEX type (inter/idx/internal.go), also used for branch ids
+			b := idx.Validator(n).Bytes()
+			return fmt.Sprintf("%s %d", HexOf(b), idx.BytesToValidator(b))
 		}
 	case "idxcmp":
 		a, b := Atou(f[2]), Atou(f[3])
@@ -262,6 +265,8 @@ func encStep(line string) string {
 			return sign(bytes.Compare(idx.Pack(a).Bytes(), idx.Pack(b).Bytes()))
 		case "validatorid":
 			return sign(bytes.Compare(idx.ValidatorID(a).Bytes(), idx.ValidatorID(b).Bytes()))
+		case "validator":
+			return sign(bytes.Compare(idx.Validator(a).Bytes(), idx.Validator(b).Bytes()))
 		}
 	case "id": // id epoch lamport tailhex  (SetID path)
 		id := mkID(Atou(f[1]), Atou(f[2]), Unhex(f[3]))
@@ -306,7 +311,7 @@ var (
 )
 
 func genEnc(r *Rand, n int, tier string, w *bufio.Writer) {
-	idxTypes := []string{"epoch", "event", "block", "lamport", "frame", "pack", "validatorid"}
+	idxTypes := []string{"epoch", "event", "block", "lamport", "frame", "pack", "validatorid", "validator"}
 	tail := func() string {
 		k := []int{0, 1, 24, 24, 3}[r.Intn(5)]
 		b := make([]byte, k)
